@@ -570,7 +570,7 @@ def main_check(module, argv=None):
         if hasattr(module, "regenerate"):
             gen_failures = list(module.regenerate(ctx) or [])
         # 3. build + theorems
-        rc, log = build_theories()
+        rc, log = build_theories(targets=getattr(module, "COQ_TARGETS", None))
         build_ok = rc == 0
         prop = compile_property_file(pid) if build_ok else {"ok": False, "stdout": "", "stderr": log[-4000:],
                                                              "theorems": [], "stated": [], "printed": []}
